@@ -251,6 +251,41 @@ def check_wide(ctx: Ctx):
                       f"equal), weights sum to {ws}", {**rp, "aggregator": "IMTLG"})
 
 
+def aligned_many_columns(ctx: Ctx):
+    """the re-balanced rows are orthogonal and as long as the smallest singular value whatever the number of COLUMNS: a
+    float32 matrix of condition number 10..25 with 60 000 - 200 000 columns has an unambiguous full row rank (the rank decision
+    concerns the m x m Gramian)"""
+    rng = ctx.rng
+    m = rng.choice([2, 3])
+    n = rng.choice([60000, 120000, 200000])
+    g = torch.Generator().manual_seed(rng.randrange(2 ** 31))
+    Q, _ = torch.linalg.qr(torch.randn(n, m, generator=g, dtype=torch.float64))      # n x m, orthonormal columns
+    P_, _ = torch.linalg.qr(torch.randn(m, m, generator=g, dtype=torch.float64))
+    cond = rng.choice([10.0, 25.0])
+    sv = torch.tensor([cond ** (1 - i / (m - 1)) for i in range(m)], dtype=torch.float64)
+    J64 = P_ @ torch.diag(sv) @ Q.T
+    J = J64.to(torch.float32)
+    ctx.case(("aligned-many-columns", m, n, cond), nontrivial=True)
+    ctx.count("aligned_many_columns", n)
+    rows = []
+    for k in range(m):
+        e = torch.zeros(m, dtype=torch.float32)
+        e[k] = 1.0
+        st, x = run_agg(AlignedMTL(pref_vector=e), J)
+        if st != "ok":
+            ctx.violation(f"AlignedMTL raised {x} on a {m}x{n} float32 matrix", {"aggregator": "AlignedMTL", "shape": [m, n]})
+            return
+        rows.append(x.double())
+    R = torch.stack(rows)
+    G = R @ R.T
+    smin2 = float(sv[-1]) ** 2
+    err = float((G - smin2 * torch.eye(m, dtype=torch.float64)).abs().max()) / smin2
+    if err > 5e-3:
+        ctx.violation(f"AlignedMTL on a {m}x{n} float32 matrix of condition number {cond}: the re-balanced rows (one-hot preferences) "
+                      f"have Gramian {G.tolist()} instead of sigma_min^2 I = {smin2} I (relative deviation {err:.2e})",
+                      {"aggregator": "AlignedMTL", "family": "many columns", "shape": [m, n], "cond": cond})
+
+
 def cast_roundtrip(ctx: Ctx):
     """aggregators are nn.Modules: moving one through a low-precision dtype and back (`.half().float()`, `.bfloat16().double()`,
     as happens to every sub-module of a model that is cast) must not change the preference vector it was configured with"""
@@ -298,6 +333,8 @@ def main(ctx: Ctx):
         check_wide(ctx)
         cast_roundtrip(ctx)
         default_dtype_float64(ctx)
+    for _ in range(2 if ctx.tier == "quick" else 40):
+        aligned_many_columns(ctx)
     n = 250 if ctx.tier == "quick" else 40000
     for i in range(n):
         dtype = torch.float64 if i % 3 else torch.float32
